@@ -206,6 +206,11 @@ InPlaceExt(t, body, found) == IF found THEN Edit(CExt(t, body), FALSE) /\ UNCHAN
 \* the protocol list of the ALPN extension object replaced (found: the extension list has one)
 ExtALPN(body, found) == IF found THEN Edit(CExt(16, body), FALSE) /\ UNCHANGED omitSNI ELSE UNCHANGED bvars
 
+\* Another UConn - built from the same ClientHelloSpec value, or from a spec whose cipher-suite list shares its backing
+\* array with this one's - is created, built or edited: nothing of this connection changes (ApplyPreset copies the list),
+\* every claim of this connection stands
+OtherConnection == phase = "edit" /\ UNCHANGED bvars
+
 \* Handshake: the internal rebuild; ser is Hello.Raw right after it
 StartHandshake(ser) ==
   /\ phase = "edit" /\ ~WillFail
